@@ -5,6 +5,7 @@
 #include <malloc.h>
 #include <stdarg.h>
 #include <unistd.h>
+#include <stdint.h>
 
 void *__real_malloc(size_t);
 void *__real_calloc(size_t, size_t);
@@ -31,6 +32,38 @@ void *vh_xmalloc(size_t n) {
 }
 void vh_xfree(void *p) { __real_free(p); }
 
+/* ---- call tracking for the allocator family (C14): live-pointer table and per-operation call log ---- */
+int vh_track = 0;
+vh_acall_t vh_calls[VH_MAXCALLS];
+int vh_ncalls = 0;
+int vh_badfree = 0;
+#define TBL (1 << 16)
+static void *tk[TBL];
+static size_t tv[TBL];
+static size_t hp(void *p) { return (((uintptr_t)p) >> 4) * 0x9E3779B97F4A7C15ULL >> 48; }
+static void tbl_put(void *p, size_t n) {
+  size_t i = hp(p) & (TBL - 1);
+  while (tk[i] && tk[i] != (void *)1 && tk[i] != p) i = (i + 1) & (TBL - 1);
+  tk[i] = p; tv[i] = n;
+}
+static long tbl_take(void *p) {
+  size_t i = hp(p) & (TBL - 1);
+  for (int probes = 0; tk[i] && probes < TBL; probes++, i = (i + 1) & (TBL - 1))
+    if (tk[i] == p) { tk[i] = (void *)1; return (long)tv[i]; }
+  return -1;
+}
+static void track_alloc(void *p, size_t n) {
+  if (!vh_track || !p) return;
+  tbl_put(p, n);
+  if (vh_ncalls < VH_MAXCALLS) { vh_calls[vh_ncalls].kind = 'm'; vh_calls[vh_ncalls].size = (long)n; vh_ncalls++; }
+}
+static void track_free(void *p) {
+  if (!vh_track || !p) return;
+  long n = tbl_take(p);
+  if (n < 0) vh_badfree++;
+  if (vh_ncalls < VH_MAXCALLS) { vh_calls[vh_ncalls].kind = 'f'; vh_calls[vh_ncalls].size = n; vh_ncalls++; }
+}
+
 static int should_fail(const char *what, size_t n) {
   long c = __atomic_add_fetch(&vh_alloc_count, 1, __ATOMIC_RELAXED);
   if (vh_alloc_log) {
@@ -43,6 +76,7 @@ static int should_fail(const char *what, size_t n) {
 
 static void on_alloc(void *p, size_t n, int poison) {
   if (!p) return;
+  track_alloc(p, n);
   __atomic_add_fetch(&vh_live_blocks, 1, __ATOMIC_RELAXED);
   if (poison && vh_poison_alloc) memset(p, 0xA5, n);
 }
@@ -65,6 +99,7 @@ void *__wrap_realloc(void *q, size_t n) {
   if (should_fail("realloc", n)) return NULL;
   void *p = __real_realloc(q, n);
   if (!q && p) __atomic_add_fetch(&vh_live_blocks, 1, __ATOMIC_RELAXED);
+  if (vh_track && p) { if (q) tbl_take(q); tbl_put(p, n); }
   return p;
 }
 
@@ -77,6 +112,7 @@ int __wrap_posix_memalign(void **out, size_t al, size_t n) {
 
 void __wrap_free(void *p) {
   if (!p) return;
+  track_free(p);
   __atomic_sub_fetch(&vh_live_blocks, 1, __ATOMIC_RELAXED);
   if (vh_poison_free) {
     size_t n = malloc_usable_size(p);
